@@ -50,7 +50,7 @@ package cryptz
 //@ func AESCBCEncrypt
 //@   requires len(dst) == 16*(len(plainText)/16 + 1)
 //@   requires len(iv) == 16
-//@   requires sameArray(dst, plainText) ==> dst.off == plainText.off
+//@   requires (sameArray(dst, plainText) && len(plainText) > 0) ==> dst.off == plainText.off
 //@   modifies dst[0:len(dst)]
 //@   ensures (result == nil) == (len(key) == 16 || len(key) == 24 || len(key) == 32)
 //@   at after-call5:
@@ -83,3 +83,60 @@ package cryptz
 //@   requires len(d) > 0 && 1 <= b && b <= 255
 //@   modifies d[len(d):cap(d)]
 //@   ensures result2 == nil && len(result1) == len(d) && forall k in 0..len(d): result1[k] == old(d[k])
+
+// ---------------------------------------------------------------------------------------------------------------
+// crypt.go (C09): wire layout and absence of panics. The cryptographic content (MD5 key derivation, AES) is
+// uninterpreted: equality with OpenSSL and the round trips are decided by the bounded harness.
+// ---------------------------------------------------------------------------------------------------------------
+//@ spec saltedHeader(b bytes_any) bool = len(b) >= 16 && b[0] == 83 && b[1] == 97 && b[2] == 108 && b[3] == 116 && b[4] == 101 && b[5] == 100 && b[6] == 95 && b[7] == 95
+
+//@ global fixedSaltHeader:
+//@   invariant len(fixedSaltHeader) == 8 && fixedSaltHeader[0] == 83 && fixedSaltHeader[1] == 97 && fixedSaltHeader[2] == 108 && fixedSaltHeader[3] == 116 && fixedSaltHeader[4] == 101 && fixedSaltHeader[5] == 100 && fixedSaltHeader[6] == 95 && fixedSaltHeader[7] == 95
+
+// three MD5 rounds over prev+secret+salt fill exactly the 48 credential bytes; the scratch buffer never overflows
+//@ func fillCred
+//@   requires len(cred) >= 48 && len(salt) + len(secret) < 2199023255552
+//@   modifies cred[0:len(cred)]
+//@   loop 1:
+//@     invariant 0 <= i && i <= 3 && fresh(buf) && cap(buf) == 16 + len(secret) + len(salt) && unchangedOutside(cred, 0, len(cred))
+//@     decreases 3 - i
+
+//@ func fillSaltAndCred
+//@   requires len(cred) >= 48 && len(salt) + len(secret) < 2199023255552
+//@   modifies cred[0:len(cred)], salt[0:len(salt)]
+
+//@ func SaltBySecretCBCEncrypt
+//@   requires len(secret) < 1099511627776
+//@   ensures result2 == nil ==> (fresh(result1) && len(result1) == 16 + 16*(len(plainText)/16 + 1) && saltedHeader(result1))
+
+//@ func SaltBySecretCBCDecrypt
+//@   requires len(secret) < 1099511627776
+//@   modifies cipherText[16:len(cipherText)]
+//@   ensures (len(cipherText) < 32 || len(cipherText) % 16 != 0 || !saltedHeader(cipherText)) ==> result2 != nil
+//@   ensures result2 == nil ==> len(result1) < len(cipherText) - 16
+//@   ensures (result2 == nil && reuseCipherText) ==> (sameArray(result1, cipherText) && result1.off == cipherText.off + 16)
+//@   ensures (result2 == nil && !reuseCipherText) ==> fresh(result1)
+
+//@ func SaltBySecretGCMEncrypt
+//@   requires len(secret) < 1099511627776
+//@   ensures result2 == nil ==> (fresh(result1) && len(result1) == 16 + len(plainText) + 16 && saltedHeader(result1))
+
+//@ func SaltBySecretGCMDecrypt
+//@   requires len(secret) < 1099511627776
+//@   modifies cipherText[16:cap(cipherText)]
+//@   ensures (len(cipherText) < 32 || !saltedHeader(cipherText)) ==> result2 != nil
+//@   ensures result2 == nil ==> len(result1) == len(cipherText) - 32
+
+//@ func Encrypt
+//@   requires len(secret) < 1099511627776
+//@   ensures result2 == nil ==> len(result1) == (16 + 16*(len(plainText)/16 + 1) + 2) / 3 * 4
+
+//@ func Decrypt
+//@   requires len(secret) < 1099511627776
+
+//@ func GCMEncrypt
+//@   requires len(secret) < 1099511627776
+//@   ensures result2 == nil ==> len(result1) == 2 * (32 + len(plainText))
+
+//@ func GCMDecrypt
+//@   requires len(secret) < 1099511627776
